@@ -26,8 +26,9 @@
   * `C19_trace_sorted`: recorded times never go back (the clock is monotone).
   * `C19_total` (+ `_queue`, `_raw`, `_returns`): **totality with machines**.  For machine lists
     accepted by validation, fractions in [0,1], a non-empty trace with times up to `T`, network
-    delay `d`, a packets-per-second limit that is absent or at least 1, the iteration cap
-    `max_sim_iterations = N >= 1` and the arithmetic guard `(N + 2) * span N T d <= Duration::MAX`
+    delay `d`, a packets-per-second limit that is absent or at least 1, a cap of `N >= 1`
+    iterations (`max_sim_iterations = N`, or `max_trace_length = N` with both output filters
+    off) and the arithmetic guard `(N + 2) * span N T d <= Duration::MAX`
     (`span` = an explicit bound on the width of simulated time: `T + d + 4 d + 2 N aggD + N stepZ`,
     quadratic in `N` with the 24 h caps on sampled timeouts and durations as coefficients), the
     run ends in none of the model's fault classes — for EVERY oracle.  Behind it
@@ -285,8 +286,8 @@ theorem C19_trace_sorted (budget : Nat) (mc ms : List Machine) (sq : SimQueue) (
 /-- **The simulation returns without a fault** (general queue).  Machines accepted by validation
     (and of the shape of the Rust type: one transition slot per event), fractions in `[0, 1]`, a
     non-empty, well-formed queue of trace packets with times in `[-d, T]`, network delay `d`, an
-    effective packets-per-second limit of at least 1, the iteration cap `max_sim_iterations = N ≥ 1`,
-    and `(N + 2) · span N T d ≤ Duration::MAX`: whatever the oracle, the run ends in none of the
+    effective packets-per-second limit of at least 1, a cap of `N ≥ 1` iterations (`CappedAt`:
+    `max_sim_iterations = N`, or `max_trace_length = N` with both output filters off), and `(N + 2) · span N T d ≤ Duration::MAX`: whatever the oracle, the run ends in none of the
     fault classes of the model — no overflow of checked `Duration` arithmetic, no `unwrap` on
     `None`, no fault inside either framework, no machine id out of range, no `BUG:` assertion. -/
 theorem C19_total_queue (budget : Nat) (mc ms : List Machine) (sq : SimQueue) (N d T : Nat) (a : Args) (orc : σ)
@@ -295,7 +296,7 @@ theorem C19_total_queue (budget : Nat) (mc ms : List Machine) (sq : SimQueue) (N
       Validate.fracOK a.fpServer = true ∧ Validate.fracOK a.fbServer = true)
     (hq : QueueOK sq (-(d : Int)) (T : Int))
     (hd : a.network.delay = d) (hpps : 1 ≤ effPps a.network sq.maxPps)
-    (hcap : a.maxSimIterations = N) (hN : 0 < N) (hg : (N + 2) * TB.span N T d ≤ durMax) :
+    (hcap : CappedAt a N) (hN : 0 < N) (hg : (N + 2) * TB.span N T d ≤ durMax) :
     ∀ f, (simAdvanced ρ budget mc ms sq a orc).stop ≠ .fault f :=
   simAdvanced_no_fault ρ budget hmc hms hq hfrac hd hpps hcap hN hg orc
 
@@ -308,7 +309,7 @@ theorem C19_total (budget : Nat) (mc ms : List Machine) (trace : List TraceLine)
       Validate.fracOK a.fpServer = true ∧ Validate.fracOK a.fbServer = true)
     (hne : trace ≠ []) (hT : ∀ l ∈ trace, l.1 ≤ T)
     (hd : a.network.delay = d) (hpps : ∀ p, a.network.pps = some p → 1 ≤ p)
-    (hcap : a.maxSimIterations = N) (hN : 0 < N) (hg : (N + 2) * TB.span N T d ≤ durMax) :
+    (hcap : CappedAt a N) (hN : 0 < N) (hg : (N + 2) * TB.span N T d ≤ durMax) :
     ∀ f, (simAdvanced ρ budget mc ms (parseTrace trace d) a orc).stop ≠ .fault f :=
   simAdvanced_no_fault ρ budget hmc hms (parseTrace_queueOK d hne hT) hfrac hd
     (parseTrace_effPps d hne a.network hpps) hcap hN hg orc
@@ -321,7 +322,7 @@ theorem C19_total_raw (budget : Nat) (mc ms : List Machine) (raw : List RawLine)
       Validate.fracOK a.fpServer = true ∧ Validate.fracOK a.fbServer = true)
     (hne : normalLines raw ≠ []) (hT : ∀ l ∈ normalLines raw, l.1 ≤ T)
     (hd : a.network.delay = d) (hpps : ∀ p, a.network.pps = some p → 1 ≤ p)
-    (hcap : a.maxSimIterations = N) (hN : 0 < N) (hg : (N + 2) * TB.span N T d ≤ durMax) :
+    (hcap : CappedAt a N) (hN : 0 < N) (hg : (N + 2) * TB.span N T d ≤ durMax) :
     ∀ f, (simAdvanced ρ budget mc ms (parseTraceRaw raw d) a orc).stop ≠ .fault f := by
   rw [parseTraceRaw_eq]
   exact C19_total ρ budget mc ms (normalLines raw) N d T a orc hmc hms hfrac hne hT hd hpps hcap hN hg
@@ -341,7 +342,7 @@ theorem C19_total_returns (budget : Nat) (mc ms : List Machine) (trace : List Tr
      (simAdvanced ρ budget mc ms (parseTrace trace d) a orc).stop = .maxIter ∨
      (simAdvanced ρ budget mc ms (parseTrace trace d) a orc).stop = .noNormal) ∧
     (simAdvanced ρ budget mc ms (parseTrace trace d) a orc).stream.length ≤ N := by
-  have hnf := C19_total ρ budget mc ms trace N d T a orc hmc hms hfrac hne hT hd hpps hcap hN hg
+  have hnf := C19_total ρ budget mc ms trace N d T a orc hmc hms hfrac hne hT hd hpps (Or.inl hcap) hN hg
   have hb := C19_iterations_bounded ρ budget mc ms (parseTrace trace d) a orc (by omega)
   refine ⟨?_, by omega⟩
   cases hs : (simAdvanced ρ budget mc ms (parseTrace trace d) a orc).stop with
@@ -411,7 +412,7 @@ example (orc : σ) (f : SimFault) :
   C19_total ρ 0 [exMachine] [exMachine] exTrace 50 10000000 2000000 exTotalArgs orc
     C19_total_example_machine C19_total_example_machine
     ⟨by decide +kernel, by decide +kernel, by decide +kernel, by decide +kernel⟩
-    (by decide) (by decide) rfl (by intro p hp; cases hp) rfl (by decide) (by decide) f
+    (by decide) (by decide) rfl (by intro p hp; cases hp) (Or.inl rfl) (by decide) (by decide) f
 
 /-- the same run under the all-zero oracle, evaluated by the kernel: it runs into the iteration
     cap after 50 iterations, having executed 9 paddings and 11 blocking actions (10 of them
@@ -427,6 +428,15 @@ example : exTotalRun.stop = .maxIter ∧ exTotalRun.stream.length = 50 ∧
     (exTotalRun.stream.filter (fun r => r.ev.event == .paddingRecv)).length = 2 ∧
     (match exTotalRun.final with | some st => st.net.ghost.aggPushed | none => 0) = 10 ∧
     (match exTotalRun.final with | some st => st.net.clientAgg | none => 0) = 3000000 := by decide +kernel
+
+/-- **The guard is needed in some form**: the same machines and trace with a network delay of
+    5·10^27 ns (1.6·10^11 years — far outside anything realistic, and outside the guard) make
+    the model stop with the checked-arithmetic fault at the first blocking expiry: the multiple
+    `4 · delay` that `push_aggregate_delay` computes does not fit a `Duration`. -/
+theorem C19_total_guard_needed :
+    (simAdvanced exOracle 0 [exMachine] [exMachine] (parseTrace exTrace 5000000000000000000000000000)
+      { exTotalArgs with network := ⟨5000000000000000000000000000, none⟩ } ()).stop = .fault .durOverflow := by
+  decide +kernel
 
 /-! Non-vacuity: a concrete two-packet run without machines (state built directly, so that the
     kernel can evaluate it): 7 iterations, 3 of them client events; the stream is the same for
